@@ -37,11 +37,15 @@ type Frame struct {
 }
 
 func Dial(addr string) (*Peer, error) {
-	c, err := net.DialTimeout("tcp", addr, 2*time.Second)
-	if err != nil {
-		return nil, err
+	// a loopback dial only times out when the machine is overloaded: retry, the address is our own server
+	var c net.Conn
+	var err error
+	for try := 0; try < 4; try++ {
+		if c, err = net.DialTimeout("tcp", addr, 5*time.Second); err == nil {
+			return &Peer{C: c, R: bufio.NewReader(c)}, nil
+		}
 	}
-	return &Peer{C: c, R: bufio.NewReader(c)}, nil
+	return nil, err
 }
 
 func Wrap(c net.Conn) *Peer { return &Peer{C: c, R: bufio.NewReader(c)} }
